@@ -2,6 +2,8 @@
 """Pretty-printer for C12 cases/traces: c12_decode.py <cases> <traceA> [<traceB>] <index>"""
 import sys
 NAMES = ["SendSync", "SendAsync", "Gate", "UserRecv", "PollA", "CloseA", "CloseB", "Kill", "Reopen"]
+SNAMES = ["Sync", "AsyncStart", "AsyncPoll", "AsyncDrop", "Conn", "Handle", "Open", "Close", "Cmd", "Gate", "Kill", "CmdFail"]
+SLEN = [4, 5, 3, 3, 3, 3, 2, 2, 2, 4, 1, 2]
 def acts(c):
     cfg = c[:5]; n = c[5]; i = 6; out = []
     for _ in range(n):
@@ -15,21 +17,42 @@ def blocks(xs, t):
         if a[0] == 3:
             l = {0: 1, 1: 2, 2: 1, 3: 5}.get(t[i], 1)
         elif a[0] == 4:
-            n = t[i]; l = 1; 
+            n = t[i]; l = 1
             for _ in range(n):
                 l += 2 if t[i+l] == 1 else 1
         else: l = 1
         out.append((t[i:i+l], t[i+l:i+l+12])); i += l + 12
     return out
+def sacts(c):
+    cfg = (c[1:6], c[6:11]); n = c[11]; i = 12; out = []
+    for _ in range(n):
+        l = SLEN[c[i]]; out.append(c[i:i+l]); i += l
+    return cfg, out, c[i:]
+def sblocks(xs, t):
+    i = 1; out = []
+    for a in xs:
+        if i >= len(t): out.append(None); continue
+        l = {0: 1, 1: 2, 2: 1, 3: 6}.get(t[i], 1) if a[0] == 5 else 1
+        out.append((t[i:i+l], t[i+l:i+l+14])); i += l + 14
+    return out
 def main():
     files = sys.argv[1:-1]; idx = int(sys.argv[-1])
     c = list(map(int, open(files[0]).read().splitlines()[idx].split()))
-    cfg, xs, rest = acts(c)
-    print("cfg caps s/a/n max out/in:", cfg, "hints:", rest)
-    trs = [blocks(xs, list(map(int, open(f).read().splitlines()[idx].split()))) for f in files[1:]]
-    print("dump = a b sfree afree wait ok err carrier nfree fc yes bad")
+    sched = c[0] == 9001
+    if sched:
+        cfg, xs, rest = sacts(c)
+        print("cfg A, B (c_s c_a c_n c_c max):", cfg, "hints:", rest)
+        print("dump = aliveA aliveB sfreeA afreeA sfreeB afreeB nfreeA nfreeB carAB carBA cmdsA cmdsB yes bad; x: 1=A 0=B")
+        trs = [sblocks(xs, list(map(int, open(f).read().splitlines()[idx].split()))) for f in files[1:]]
+        names = SNAMES
+    else:
+        cfg, xs, rest = acts(c)
+        print("cfg caps s/a/n max out/in:", cfg, "hints:", rest)
+        print("dump = a b sfree afree wait ok err carrier nfree fc yes bad")
+        trs = [blocks(xs, list(map(int, open(f).read().splitlines()[idx].split()))) for f in files[1:]]
+        names = NAMES
     for j, a in enumerate(xs):
-        line = "%3d %-9s %-12s" % (j, NAMES[a[0]], a[1:])
+        line = "%3d %-10s %-16s" % (j, names[a[0]], a[1:])
         bs = [tr[j] for tr in trs]
         mark = "  <<<<" if len(bs) > 1 and bs[0] != bs[1] else ""
         print(line, " | ".join(str(b) for b in bs), mark)
